@@ -85,6 +85,7 @@ switches! {
     field_list_neg_index,   // reading `obj.field[-1]`: negative index on a list reached through a field
     dict_var_key,           // `d[k]` with a str variable key
     dict_inline_literal,    // dict literal in expression position (not the initializer of an annotated binding)
+    dict_in_nested_block,   // dict literal bound inside a nested block (HashMap import is only detected at function top level)
     list_builtins,          // sum/min/max/sorted over List[int]
     recursion,
 }
